@@ -558,14 +558,17 @@ class RawAlgorithmsMixIn:
 
         else:
 
-            tmp = numpy.zeros_like(xbar_data)
+            # scratch array in the working dtype (a complex result or
+            # exponent with a real base)
+            tmp = numpy.zeros(xbar_data.shape, dtype=numpy.result_type(
+                xbar_data.dtype, y_data.dtype, ybar_data.dtype, numpy.asarray(r).dtype))
 
             cls._truediv(y_data, x_data, tmp)
             tmp[...] = numpy.nan_to_num(tmp)
             cls._mul(ybar_data, tmp, tmp)
             tmp *= r
 
-            xbar_data += tmp
+            numpy.add(xbar_data, tmp, out=xbar_data, casting='unsafe')
 
         # print 'xbar_data=',xbar_data
 
@@ -1410,13 +1413,15 @@ class RawAlgorithmsMixIn:
             raise NotImplementedError('should implement that')
 
         xbar_data = out
-        tmp1 = numpy.zeros(xbar_data.shape)
-        tmp2 = numpy.zeros(xbar_data.shape)
+        # scratch arrays in the working dtype (complex intermediates)
+        dtype = numpy.result_type(ybar_data.dtype, y_data.dtype, float)
+        tmp1 = numpy.zeros(xbar_data.shape, dtype=dtype)
+        tmp2 = numpy.zeros(xbar_data.shape, dtype=dtype)
 
         tmp1 = cls._dot(ybar_data, cls._transpose(y_data), out = tmp1)
         tmp2 = cls._dot(cls._transpose(y_data), tmp1, out = tmp2)
 
-        xbar_data -= tmp2
+        numpy.subtract(xbar_data, tmp2, out=xbar_data, casting='unsafe')
         return out
 
 
@@ -1429,12 +1434,14 @@ class RawAlgorithmsMixIn:
         Abar_data = out[0]
         xbar_data = out[1]
 
-        Tbar = numpy.zeros(xbar_data.shape)
+        # scratch array in the working dtype (complex intermediates)
+        Tbar = numpy.zeros(xbar_data.shape, dtype=numpy.result_type(
+            ybar_data.dtype, A_data.dtype, y_data.dtype, float))
 
         cls._solve( A_data.transpose((0,1,3,2)), ybar_data, out = Tbar)
         Tbar *= -1.
         cls._iouter(Tbar, y_data, Abar_data)
-        xbar_data -= Tbar
+        numpy.subtract(xbar_data, Tbar, out=xbar_data, casting='unsafe')
 
         return out
 
